@@ -538,6 +538,51 @@ def exp(x):
     return r
 
 
+def radians(x):
+    if not has_sym(x):
+        return _np.radians(x)
+    import math as _m
+
+    return x * (_m.pi / 180.0)
+
+
+def _trig(x, part):
+    """cos / sin of a symbolic real angle through the phase algebra: (cos, sin) = (re, im) of exp(i x)"""
+    from . import core as _C
+
+    def one(v):
+        v = Sc.of(v)
+        if not v.isreal():
+            raise Unsupported("cos / sin of a complex symbolic value")
+        u = _C.exp_i(v.re)
+        return Sc(u.re) if part == "re" else Sc(u.im)
+
+    if isinstance(x, Sc):
+        return one(x)
+    return _map(one, x)
+
+
+def cos(x):
+    return _np.cos(x) if not has_sym(x) else _trig(x, "re")
+
+
+def sin(x):
+    return _np.sin(x) if not has_sym(x) else _trig(x, "im")
+
+
+def diag(v, k=0):
+    if not has_sym(v):
+        return _np.diag(v, k)
+    d = _np.asarray(_d(v), dtype=object)
+    if d.ndim != 1 or k != 0:
+        raise Unsupported("np.diag of a symbolic array other than a vector on the main diagonal")
+    out = _np.empty((len(d), len(d)), dtype=object)
+    for i in range(len(d)):
+        for j in range(len(d)):
+            out[i, j] = _sc(d[i]) if i == j else Sc.of(0.0)
+    return SA(out)
+
+
 def einsum(spec, *ops, **k):
     if not has_sym(ops):
         return _np.einsum(spec, *ops, **k)
@@ -1089,6 +1134,11 @@ SHIMS = dict(
     ones=ones,
     full=full,
     full_like=full_like,
+    radians=radians,
+    deg2rad=radians,
+    cos=cos,
+    sin=sin,
+    diag=diag,
     empty=empty,
     zeros_like=zeros_like,
     ones_like=ones_like,
